@@ -25,6 +25,10 @@ DEVICES = [('a', True, False), ('b', True, False), ('c', True, False), ('x', Tru
            ('c', False, True), ('a', False, True), ('y', False, True), ('b', False, True), ('d', True, True)]
 
 
+# the API names are opaque strings owned by the backend module: mixed case, digits, a blank
+REAL = {'NA': 'alsa_Seq', 'EA': 'coreMidi 2', 'KA': 'Kw-api'}
+
+
 class Rec:
     def __init__(self):
         self.imports = []
@@ -116,7 +120,7 @@ def run_cell(row):
         for k in ('MIDO_BACKEND', 'MIDO_DEFAULT_INPUT', 'MIDO_DEFAULT_OUTPUT', 'MIDO_DEFAULT_IOPORT'):
             os.environ.pop(k, None)
         if envb != 'unset':
-            os.environ['MIDO_BACKEND'] = MODNAMES['emod'] + ('/EA' if envb == 'withapi' else '')
+            os.environ['MIDO_BACKEND'] = MODNAMES['emod'] + ('/' + REAL['EA'] if envb == 'withapi' else '')
         if envin:
             os.environ['MIDO_DEFAULT_INPUT'] = 'envin'
         if envout:
@@ -126,8 +130,8 @@ def run_cell(row):
         bb.DEFAULT_BACKEND = MODNAMES['dmod']
         kw = {}
         if apikw:
-            kw['api'] = 'KA'
-        arg = None if name == 'absent' else MODNAMES['mod'] + ('/NA' if name == 'withapi' else '')
+            kw['api'] = REAL['KA']
+        arg = None if name == 'absent' else MODNAMES['mod'] + ('/' + REAL['NA'] if name == 'withapi' else '')
         try:
             be = bb.Backend(arg, load=bool(load), use_environ=bool(useenv), **kw)
         except Exception as e:
@@ -161,7 +165,7 @@ def run_cell(row):
         def api_ok(got, exp):
             if used_default and exp == 'EA':
                 return got is None
-            return got == (None if exp == 'none' else exp)
+            return got == (None if exp == 'none' else REAL.get(exp, exp))
         # ---- constructors
         ctor = [c for c in REC.calls if c[1] in ('Input', 'Output', 'IOPort')]
         if len(ctor) != len(constructed):
